@@ -349,10 +349,15 @@ def utf8(ctx, F):
     kinds = set()
     for mode, rec in W["modes"].items():
         for (s, e, kind, src, ln) in rec["writes"]:
-            kinds.add(kind.split(":")[0] if not kind.startswith("literal") else kind)
+            if kind.startswith("literal"):
+                # constant bytes: must be ASCII
+                hx = kind.split(":", 1)[1]
+                kinds.add("literal" if all(int(hx[j:j + 2], 16) < 0x80 for j in range(0, len(hx), 2)) else "literal-non-ascii")
+            else:
+                kinds.add(kind.split(":")[0])
         if rec["unknown"]:
             kinds.add("unknown")
-    okk = kinds <= {"literal:5431", "rev_array", "rev_1", "plain_array", "hex_simd"}
+    okk = kinds <= {"literal", "rev_array", "rev_1", "plain_array", "hex_simd"}
     ctx.ob(r, ("store_into_str_bytes", "write-kinds"), okk, "store_into_str_bytes writes through %s" % sorted(kinds), cfg=F.key)
     t = hexcodec.tables.hex_tables(ctx, r, F)
 
@@ -589,7 +594,12 @@ def utf8_buffer_ok(F, b):
         if rec["unknown"]:
             return False
         for (s_, e_, kind, src, ln) in rec["writes"]:
-            if not (kind in ("rev_array", "rev_1", "plain_array", "literal:5431") or kind.startswith("hex_simd")):
+            if kind.startswith("literal"):
+                hx = kind.split(":", 1)[1]
+                if not all(int(hx[j:j + 2], 16) < 0x80 for j in range(0, len(hx), 2)):
+                    return False
+                continue
+            if not (kind in ("rev_array", "rev_1", "plain_array") or kind.startswith("hex_simd")):
                 return False
     enc = F.const_bytes("parse::hex_str::HEX_UPPER_NIBBLE_TABLE")
     return enc is not None and all(x < 0x80 for x in enc)
